@@ -611,7 +611,9 @@ Proof. apply Inv_of_Sfx; [apply Sfx_valtype|auto]. Qed.
 Lemma Inv_blocktype : Inv p_blocktype (fun _ => True).
 Proof. apply Inv_of_Sfx; [apply Sfx_blocktype|auto]. Qed.
 
-Ltac inv_bind := eapply Inv_bind; [solve [eauto with invdb]|intros ? ?].
+Ltac inv_bind :=
+  eapply Inv_bind;
+  [solve [eauto with invdb]|let a := fresh "a" in let H := fresh "H" in intros a H; cbv beta in H].
 
 Section WF.
   Variables (du16 du32 : dec N) (ds32 ds64 : dec Z) (norm : list (list N * N) -> option (list (list N * N))).
@@ -695,3 +697,144 @@ Section WF.
     pose proof (Fe _ Fraw). tauto.
   Qed.
 End WF.
+
+(** ** [normalise] returns a strictly sorted permutation-by-insertion of its argument *)
+Lemma lex_lt_trans : forall a b c, lex_lt a b = true -> lex_lt b c = true -> lex_lt a c = true.
+Proof.
+  induction a as [|x a IH]; intros [|y b] [|z c]; cbn [lex_lt]; try discriminate; auto.
+  destruct (N.ltb_spec x y), (N.ltb_spec y x), (N.ltb_spec y z), (N.ltb_spec z y),
+           (N.ltb_spec x z), (N.ltb_spec z x);
+    try discriminate; try lia; auto; intros; eauto.
+Qed.
+Lemma lex_lt_irrefl : forall a, lex_lt a a = false.
+Proof. induction a as [|x a IH]; cbn [lex_lt]; [reflexivity|]. rewrite N.ltb_irrefl. exact IH. Qed.
+
+Lemma ins_spec x : forall l l', ins x l = Some l' ->
+  length l' = S (length l)
+  /\ (forall P : list N * N -> Prop, P x -> Forall P l -> Forall P l')
+  /\ (sorted_names l -> sorted_names l').
+Proof.
+  induction l as [|y l IH]; intros l'; cbn [ins].
+  - intros H. inversion H; subst. cbn [length sorted_names]. repeat split; auto.
+  - destruct (lex_lt (fst y) (fst x)) eqn:Lyx.
+    + destruct (ins x l) as [t'|] eqn:E; [|discriminate]. intros H. inversion H; subst.
+      destruct (IH _ eq_refl) as (L & F & S). cbn [length sorted_names]. split; [congruence|]. split.
+      * intros P Px Fl. inversion Fl; subst. constructor; auto.
+      * intros [Fy Sl]. split; [|auto]. apply F; assumption.
+    + destruct (lex_lt (fst x) (fst y)) eqn:Lxy; [|discriminate]. intros H. inversion H; subst.
+      cbn [length]. split; [reflexivity|]. split.
+      * intros P Px Fl. constructor; assumption.
+      * intros Syl. cbn [sorted_names]. split; [|exact Syl]. constructor; [exact Lxy|].
+        destruct Syl as [Fy _]. eapply Forall_impl; [|exact Fy].
+        intros z Hz. cbv beta in Hz. eapply lex_lt_trans; eauto.
+Qed.
+Lemma fold_ins_none l :
+  fold_left (fun a x => match a with Some m => ins x m | None => None end) l None = None.
+Proof. induction l as [|x l IH]; cbn [fold_left]; auto. Qed.
+Lemma fold_ins_spec : forall l acc e,
+  fold_left (fun a x => match a with Some m => ins x m | None => None end) l (Some acc) = Some e ->
+  length e = (length acc + length l)%nat
+  /\ (forall P : list N * N -> Prop, Forall P acc -> Forall P l -> Forall P e)
+  /\ (sorted_names acc -> sorted_names e).
+Proof.
+  induction l as [|x l IH]; intros acc e; cbn [fold_left].
+  - intros H. inversion H; subst. cbn [length]. repeat split; auto.
+  - destruct (ins x acc) as [acc'|] eqn:E; [|rewrite fold_ins_none; discriminate].
+    intros H. destruct (ins_spec _ _ _ E) as (L1 & F1 & S1). destruct (IH _ _ H) as (L2 & F2 & S2).
+    cbn [length]. split; [lia|]. split.
+    + intros P Fa Fl. inversion Fl; subst. apply F2; auto.
+    + auto.
+Qed.
+Lemma normalise_spec l e : normalise l = Some e ->
+  length e = length l /\ (forall P : list N * N -> Prop, Forall P l -> Forall P e) /\ sorted_names e.
+Proof.
+  unfold normalise. intros H. destruct (fold_ins_spec _ _ _ H) as (L & F & S).
+  split; [exact L|]. split; [|apply S; exact I]. intros P Fl. apply F; auto.
+Qed.
+
+(** (A) *)
+Theorem parse_wf_thm : forall bs a rest,
+  bytes_ok bs -> parse_artifact bs = Some (a, rest) -> wf_artifact a /\ bytes_ok rest.
+Proof.
+  intros bs a rest. rewrite <- g_artifact_loose. apply gI_artifact.
+  - apply Inv_of_Sfx; [apply Sfx_u16|]. intros b v r H. apply (decode_u16_bounded _ _ _ H).
+  - apply Inv_of_Sfx; [apply Sfx_u32|]. intros b v r H. apply (decode_u32_bounded _ _ _ H).
+  - apply Inv_of_Sfx; [apply Sfx_s32|]. intros b v r H. apply (decode_s32_bounded _ _ _ H).
+  - apply Inv_of_Sfx; [apply Sfx_s64|]. intros b v r H. apply (decode_s64_range _ _ _ H).
+  - exact normalise_spec.
+Qed.
+
+(** (B) parse-then-output is idempotent *)
+Theorem parse_output_normal_form_thm : forall bs a rest,
+  bytes_ok bs -> parse_artifact bs = Some (a, rest) ->
+  parse_artifact (output_artifact a ++ rest) = Some (a, rest).
+Proof.
+  intros bs a rest Hb H. apply artifact_roundtrip_thm. apply (parse_wf_thm _ _ _ Hb H).
+Qed.
+Theorem reserialise_idempotent_strong_thm : forall bs a rest,
+  bytes_ok bs -> parse_artifact bs = Some (a, rest) ->
+  forall a' r', parse_artifact (output_artifact a) = Some (a', r') -> a' = a /\ r' = [].
+Proof.
+  intros bs a rest Hb H a' r' H'.
+  pose proof (artifact_roundtrip_thm a [] (proj1 (parse_wf_thm _ _ _ Hb H))) as R.
+  rewrite app_nil_r in R. rewrite R in H'. inversion H'. auto.
+Qed.
+Theorem reserialise_idempotent_thm : forall bs a rest,
+  bytes_ok bs -> parse_artifact bs = Some (a, rest) ->
+  forall a', parse_artifact (output_artifact a) = Some (a', []) -> output_artifact a' = output_artifact a.
+Proof.
+  intros bs a rest Hb H a' H'. destruct (reserialise_idempotent_strong_thm _ _ _ Hb H _ _ H') as [-> _].
+  reflexivity.
+Qed.
+(** ... and never fails: the hypothesis of [reserialise_idempotent_thm] is always met *)
+Theorem reserialise_parses_thm : forall bs a rest,
+  bytes_ok bs -> parse_artifact bs = Some (a, rest) -> parse_artifact (output_artifact a) = Some (a, []).
+Proof.
+  intros bs a rest Hb H. rewrite <- (app_nil_r (output_artifact a)).
+  apply artifact_roundtrip_thm. apply (parse_wf_thm _ _ _ Hb H).
+Qed.
+
+(** (C) the characterisation: an accepted input is its own re-serialisation exactly when the strict
+    parser accepts it, i.e. when no LEB128 number is over-long and the exports are sorted *)
+Theorem noncanonical_iff_not_strict_thm : forall bs a rest,
+  bytes_ok bs -> parse_artifact bs = Some (a, rest) ->
+  (bs = output_artifact a ++ rest <-> parse_artifact_strict bs = Some (a, rest)).
+Proof.
+  intros bs a rest Hb H. split.
+  - intros E. rewrite E. apply strict_complete_thm. apply (parse_wf_thm _ _ _ Hb H).
+  - apply strict_canonical_gen_thm.
+Qed.
+(** the strict parser accepts exactly the serialisations of well-formed artifacts *)
+Theorem strict_accepts_iff_thm : forall bs a rest, bytes_ok bs ->
+  (parse_artifact_strict bs = Some (a, rest) <-> wf_artifact a /\ bs = output_artifact a ++ rest).
+Proof.
+  intros bs a rest Hb. split.
+  - intros H. split; [|apply strict_canonical_gen_thm; exact H].
+    apply (parse_wf_thm bs a rest Hb). apply strict_sound_thm. exact H.
+  - intros [W ->]. apply strict_complete_thm. exact W.
+Qed.
+
+(** ** Examples *)
+(** over-long import count: accepted, not strictly *)
+Example strict_rejects_overlong_ex :
+  let bs := [255; 0x80; 0x00; 0; 0; 0; 0; 0; 0] in
+  parse_artifact bs = Some (empty_artifact, []) /\ parse_artifact_strict bs = None
+  /\ parse_artifact_strict (output_artifact empty_artifact) = Some (empty_artifact, []).
+Proof. cbv zeta. repeat split; vm_compute; reflexivity. Qed.
+
+(** two exports "b" -> 1, "a" -> 2 in descending name order: accepted, the map order is "a", "b";
+    the strict parser rejects the input and accepts the re-serialisation, which has them swapped *)
+Definition two_exports (l : list (list N * N)) : s_artifact :=
+  {| sa_imports := []; sa_types := []; sa_table := []; sa_memory := None; sa_globals := [];
+     sa_exports := l; sa_code := [] |}.
+Example strict_rejects_unsorted_ex :
+  let bs := [255; 0; 0; 0; 0; 0; 2; 1; 98; 1; 1; 97; 2; 0] in
+  let a := two_exports [([97], 2); ([98], 1)] in
+  parse_artifact bs = Some (a, []) /\ parse_artifact_strict bs = None
+  /\ output_artifact a = [255; 0; 0; 0; 0; 0; 2; 1; 97; 2; 1; 98; 1; 0]
+  /\ parse_artifact_strict (output_artifact a) = Some (a, []).
+Proof. cbv zeta. repeat split; vm_compute; reflexivity. Qed.
+(** a duplicate export name is rejected by both *)
+Example duplicate_export_rejected_ex :
+  parse_artifact [255; 0; 0; 0; 0; 0; 2; 1; 97; 1; 1; 97; 2; 0] = None.
+Proof. vm_compute. reflexivity. Qed.
